@@ -338,3 +338,162 @@ pub fn decode(b: &[u8]) -> Result<CpcImage, String> {
     }
     Ok(img)
 }
+
+// ---------------------------------------------------------------------------------------------
+// Re-encoding of the pair (surprising-value table) section: lets the corruption campaign build
+// images whose entropy coding is perfectly well formed while the *decoded* pairs are not
+// (column 56..63, row >= k, duplicates, unsorted order). Written from the same description as
+// the decoder above, using only the encoding table.
+
+struct BitsOut {
+    w: Vec<u32>,
+    buf: u64,
+    n: u32,
+}
+
+impl BitsOut {
+    fn put(&mut self, v: u64, bits: u32) {
+        debug_assert!(bits <= 32);
+        self.buf |= (v & ((1u64 << bits) - 1)) << self.n;
+        self.n += bits;
+        while self.n >= 32 {
+            self.w.push(self.buf as u32);
+            self.buf >>= 32;
+            self.n -= 32;
+        }
+    }
+    fn finish(mut self) -> Vec<u32> {
+        // the writers pad with 11 zero bits so that a 12-bit peek never runs off the end
+        self.put(0, 11);
+        if self.n > 0 {
+            self.w.push(self.buf as u32);
+        }
+        self.w
+    }
+}
+
+/// Entropy-code `pairs` (any order, any values: that is the point) for a table of `num_pairs`
+/// declared entries at `lg_k`. Returns None when a delta cannot be expressed (negative row or
+/// column step, column step above 64).
+pub fn encode_pairs(pairs: &[(u32, u8)], lg_k: u8) -> Option<Vec<u32>> {
+    if pairs.is_empty() {
+        return Some(vec![]);
+    }
+    let k = 1u64 << lg_k;
+    let quotient = k / pairs.len() as u64;
+    let base_bits = if quotient == 0 { 0 } else { floor_log2(quotient) };
+    let enc = tables::unary_enc();
+    let mut out = BitsOut { w: vec![], buf: 0, n: 0 };
+    let mut row = 0u64;
+    let mut col_pred = 0u32;
+    for &(r, c) in pairs {
+        let r = r as u64;
+        if r < row {
+            return None;
+        }
+        let y_delta = r - row;
+        if y_delta > 0 {
+            col_pred = 0;
+        }
+        if (c as u32) < col_pred {
+            return None;
+        }
+        let x_delta = c as u32 - col_pred;
+        let e = *enc.get(x_delta as usize)?;
+        let (len, code) = ((e >> 12) as u32, (e & 0xfff) as u64);
+        if len == 0 {
+            return None;
+        }
+        out.put(code, len);
+        let hi = y_delta >> base_bits;
+        if hi > 4096 {
+            return None;
+        }
+        for _ in 0..hi / 16 {
+            out.put(0, 16);
+        }
+        out.put(0, (hi % 16) as u32);
+        out.put(1, 1);
+        if base_bits > 0 {
+            out.put(y_delta & ((1u64 << base_bits) - 1), base_bits);
+        }
+        row = r;
+        col_pred = c as u32 + 1;
+    }
+    Some(out.finish())
+}
+
+/// The parts of an image needed to rebuild it around a new pair list.
+pub struct CpcParts {
+    pub lg_k: u8,
+    pub has_window: bool,
+    /// byte offset of the field that declares the number of table entries
+    pub num_pairs_at: usize,
+    /// byte offset of the tableWords field
+    pub table_words_at: usize,
+    /// byte offset where the table words start (they are the last section)
+    pub table_at: usize,
+    pub pairs: Vec<(u32, u8)>,
+}
+
+/// Header walk of a valid image with a table; the pairs are returned as stored (for windowed
+/// flavors: compressed columns 0..55, before the +8 / permutation step).
+pub fn split_table(b: &[u8]) -> Result<CpcParts, String> {
+    let mut r = Rd::new(b);
+    let _pre = r.u8("preInts")?;
+    let _ser = r.u8("serVer")?;
+    let _fam = r.u8("family")?;
+    let lg_k = r.u8("lgK")?;
+    let _fic = r.u8("fic")?;
+    let flags = r.u8("flags")?;
+    let _sh = r.u16("seedHash")?;
+    let (has_hip, has_table, has_window) = (flags & 4 != 0, flags & 8 != 0, flags & 16 != 0);
+    if !has_table || !(4..=26).contains(&lg_k) {
+        return Err("no table".into());
+    }
+    let c_at = r.p;
+    let c = r.u32("numCoupons")?;
+    let mut num_pairs_at = c_at;
+    let mut n = c;
+    if has_window {
+        num_pairs_at = r.p;
+        n = r.u32("numTableEntries")?;
+        if has_hip {
+            r.f64("kxp")?;
+            r.f64("hip")?;
+        }
+    }
+    let table_words_at = r.p;
+    let tw = r.u32("tableWords")? as usize;
+    let mut ww = 0usize;
+    if has_window {
+        ww = r.u32("windowWords")? as usize;
+    }
+    if has_hip && !has_window {
+        r.f64("kxp")?;
+        r.f64("hip")?;
+    }
+    for _ in 0..ww {
+        r.u32("window word")?;
+    }
+    let table_at = r.p;
+    let words: Vec<u32> = (0..tw).map(|_| r.u32("table word")).collect::<Result<_, _>>()?;
+    let pairs = decode_pairs_raw(&words, n as usize, lg_k)?;
+    Ok(CpcParts { lg_k, has_window, num_pairs_at, table_words_at, table_at, pairs })
+}
+
+fn decode_pairs_raw(words: &[u32], num_pairs: usize, lg_k: u8) -> Result<Vec<(u32, u8)>, String> {
+    decode_pairs(words, num_pairs, lg_k)
+}
+
+/// Image `b` with its table section replaced by the entropy coding of `pairs`.
+pub fn with_pairs(b: &[u8], parts: &CpcParts, pairs: &[(u32, u8)]) -> Option<Vec<u8>> {
+    let words = encode_pairs(pairs, parts.lg_k)?;
+    let mut out = b[..parts.table_at].to_vec();
+    out[parts.num_pairs_at..parts.num_pairs_at + 4].copy_from_slice(&(pairs.len() as u32).to_le_bytes());
+    out[parts.table_words_at..parts.table_words_at + 4].copy_from_slice(&(words.len() as u32).to_le_bytes());
+    for w in words {
+        out.extend_from_slice(&w.to_le_bytes());
+    }
+    Some(out)
+}
